@@ -1,0 +1,27 @@
+//go:build verif
+
+// Package verifhook provides instrumentation points for the out-of-tree
+// deterministic simulation harness. This file is only built with the "verif"
+// tag; the default build uses the no-op versions in off.go.
+package verifhook
+
+// FSHook, if set, is called immediately before a file-system mutation
+// performed by litestream's own code.
+var FSHook func(op, path, path2 string)
+
+// YieldHook, if set, is called at named scheduling points.
+var YieldHook func(site string)
+
+// FS is called immediately before a file-system mutation.
+func FS(op, path, path2 string) {
+	if h := FSHook; h != nil {
+		h(op, path, path2)
+	}
+}
+
+// Yield is called at named scheduling points.
+func Yield(site string) {
+	if h := YieldHook; h != nil {
+		h(site)
+	}
+}
